@@ -8,6 +8,7 @@ import PicoSVG.Proofs.PathSimAbs
 import PicoSVG.Proofs.PathSimShorthand
 import PicoSVG.Proofs.PathSimRel
 import PicoSVG.Proofs.PathSimMove
+import PicoSVG.Proofs.ShapeSim
 import PicoSVG.Spec.Shapes
 
 set_option linter.unusedSectionVars false
@@ -88,6 +89,20 @@ theorem move_translates_curve (dx dy : α) (c0 : Char) (a0 : List α) (rest out 
     (h : move dx dy ((c0, a0) :: rest) = .ok out) (hi : Spec.interp ((c0, a0) :: rest) = some segs) :
     Spec.interp out = some (segs.map (PathSim.shiftSeg dx dy)) :=
   PathSim.move_interp dx dy c0 a0 rest out segs hc0 h hi
+
+/-- C09 (basic shapes): the command sequences `as_path()` builds for a line, an ellipse / circle and a rectangle (on its
+    resolved corner radii) draw exactly the outlines SVG 1.1 §9 prescribes — start point, direction, corner arcs only when
+    the radius is positive, closing segment (`ShapeCmds.*` are the generic builders the model prints) -/
+theorem line_as_path (x1 y1 x2 y2 : α) :
+    Spec.interp (ShapeCmds.lineCmds x1 y1 x2 y2) = some (Spec.lineOutline x1 y1 x2 y2) := ShapeCmds.line_interp x1 y1 x2 y2
+
+theorem ellipse_as_path (rx ry cx cy : α) :
+    Spec.interp (ShapeCmds.ellipseCmds rx ry cx cy) = some (Spec.ellipseOutline rx ry cx cy) :=
+  ShapeCmds.ellipse_interp rx ry cx cy
+
+theorem rect_as_path (x y w h rx0 ry0 : α) :
+    Spec.interp (ShapeCmds.rectCmds x y w h (Spec.resolveRadii w h rx0 ry0).1 (Spec.resolveRadii w h rx0 ry0).2)
+      = some (Spec.rectOutline x y w h rx0 ry0) := ShapeCmds.rect_interp x y w h rx0 ry0
 
 /-- any other rewrite built on the walk inherits the result as soon as its callback is sound command by command -/
 theorem sound_callback_preserves_curve (cb : Callback α) (hcb : PathSim.CbSound cb) (cmds out : List (Cmd α))
